@@ -53,6 +53,12 @@ def enc_op(kw):
             'data': C.oj2w(kw['data'], kw['data'] is not None), 'binary': kw['binary']}
 
 
+def spec_op(kw):
+    o = enc_op(kw)
+    o['op'] = 'spec_frame'
+    return o
+
+
 def real_encode(kw):
     pk = P()
     try:
@@ -116,6 +122,38 @@ def model_decode(drv, text, atts):
             'answers': [a if isinstance(a, bool) else {'exc': a['exc']} for a in r['answers']]}
 
 
+def spec_parse(drv, text, atts):
+    """Spec.parse + Spec.fill on a frame -> dict(hdr=(type, nsp, id), natt, filled=(ok, data))."""
+    # the JSON text is what follows the header; ask the spec parser with a table that maps every
+    # suffix of the frame the real json.loads accepts (the parser picks the one its grammar yields)
+    loads = []
+    seen = set()
+    for i in range(1, len(text)):
+        rest = text[i:]
+        if rest in seen or rest[0] not in '[{"tfn':
+            continue
+        seen.add(rest)
+        try:
+            loads.append([C.s2w(rest), C.j2w(P().Packet.json.loads(rest))])
+        except C.Unrepresentable:
+            return None
+        except Exception:    # noqa
+            pass
+    r = drv.ask({'op': 'spec_parse', 'text': C.s2w(text), 'loads': loads, 'atts': [a.hex() for a in atts]})
+    if 'exc' in r:
+        return {'exc': r['exc']}
+    pk = r['pkt']
+    f = r['filled']
+    if 'some' in f:
+        filled = (True, C.w2j(f['some']))
+    elif 'none' in f:
+        filled = (True, None)
+    else:
+        filled = (False, None)
+    return {'hdr': (pk['type'], C.ow2s(pk['nsp']), None if pk['id'] is None else int(pk['id'])),
+            'natt': r['natt'], 'filled': filled}
+
+
 def dec_equal(a, b):
     if ('exc' in a) != ('exc' in b):
         return False
@@ -173,15 +211,18 @@ def run(ctx):
     n_enc = ctx.scale(1500, 30000)
     n_mut = ctx.scale(1500, 30000)
     cases = [gen_packet(rng) for _ in range(n_enc)]
-    answers = C.batch('codec', [enc_op(kw) for kw, _ in cases])
+    both = C.batch('codec', [op for kw, _ in cases for op in (enc_op(kw), spec_op(kw))])
+    answers, spec_answers = both[0::2], both[1::2]
+    n_spec = 0
     nontrivial = set()
     samples = []
     frames = []      # (text, atts, origin)
     evals = 0
-    for (kw, wf), ans in zip(cases, answers):
+    for (kw, wf), ans, sans in zip(cases, answers, spec_answers):
         evals += 1
         real = real_encode(kw)
         model = model_encode_view(ans)
+        spec = model_encode_view(sans)
         ctx.count('enc.type%d' % kw['packet_type'])
         if 'exc' in real:
             ctx.count('enc.exc.' + real['exc'])
@@ -207,7 +248,15 @@ def run(ctx):
             ctx.violation('oracle', 'binary payload accepted for a packet type other than EVENT/ACK',
                           {'case': repr(kw), 'impl': repr(real)})
         atts = real['atts'] or []
-        frames.append((real['text'], atts, 'encoded'))
+        frames.append((real['text'], atts, 'encoded', wf))
+        # ---- wire conformance: the frame is the one the independent specification codec
+        #      (Sio/Model/CodecSpec.lean, written from the v5 grammar) prescribes
+        if wf:
+            n_spec += 1
+            if 'exc' in spec or spec['text'] != real['text'] or (spec['atts'] or []) != atts \
+                    or spec['type'] != real['type']:
+                ctx.violation('oracle', 'encoded frame differs from the Socket.IO v5 specification codec',
+                              {'case': repr(kw), 'impl': repr(real), 'spec': repr(spec)})
         # ---- property oracle on the implementation alone: decode(encode(p)) = norm p
         if wf:
             d = real_decode(real['text'], atts)
@@ -233,14 +282,14 @@ def run(ctx):
     ndec = 0
     try:
         todo = []
-        for text, atts, origin in frames[: ctx.scale(800, 20000)]:
-            todo.append((text, atts, origin))
+        for text, atts, origin, wf in frames[: ctx.scale(800, 20000)]:
+            todo.append((text, atts, origin if wf else 'encoded_outside'))
             if atts and rng.random() < 0.3:
                 todo.append((text, atts[:-1], 'short'))
                 todo.append((text, atts + [b'x'], 'long'))
         for _ in range(n_mut):
             if frames and rng.random() < 0.7:
-                text, atts, _o = rng.choice(frames)
+                text, atts, _o, _w = rng.choice(frames)
                 todo.append((mutate(rng, text), atts if rng.random() < 0.5 else atts + [b'\x01'], 'mutated'))
             else:
                 todo.append((rand_frame(rng), [b'a'] * rng.randint(0, 2), 'noise'))
@@ -260,11 +309,29 @@ def run(ctx):
                 ctx.violation('correspondence', 'decode differs from model (%s frame)' % origin,
                               {'text': text, 'atts': [a.hex() for a in atts], 'impl': repr(real),
                                'model': repr(model)}, no_input=(origin not in ('encoded',)))
+            if origin == 'encoded':
+                # the specification's grammar-directed parser reads the same packet from the frame
+                sp = spec_parse(drv, text, atts)
+                n_spec += 1
+                if sp is not None and not ('exc' not in sp and 'exc' not in real
+                                           and sp['hdr'] == real['pkt'][:3] and sp['natt'] == real['natt']
+                                           and sp['filled'][0] and C.same(sp['filled'][1], real['pkt'][3])):
+                    ctx.violation('oracle', 'specification parser and decoder read different packets',
+                                  {'text': text, 'atts': [a.hex() for a in atts], 'impl': repr(real),
+                                   'spec': repr(sp)})
         # informational: the two boundary witnesses of DESIGN §5 C01, executed on the real code
         pk = P()
         w1 = pk.Packet(encoded_packet=pk.Packet(pk.CONNECT, data=5).encode())
         ctx.notes.append('domain boundary (informational): Packet(CONNECT, data=5) encodes to "05" and '
                          'decodes as id=%r data=%r' % (w1.id, w1.data))
+        e2 = pk.Packet(pk.CONNECT_ERROR, id=3, data=-5).encode()
+        w2 = pk.Packet(encoded_packet=e2)
+        ctx.notes.append('domain boundary (informational): Packet(CONNECT_ERROR, id=3, data=-5) encodes to %r '
+                         'and decodes as attachment_count=%r id=%r data=%r'
+                         % (e2, w2.attachment_count, w2.id, w2.data))
+        if (w1.id, w1.data) != (5, None) or (e2, w2.attachment_count, w2.id, w2.data) != ('43-5', 3, 5, None):
+            ctx.notes.append('NOTE: the boundary witnesses proved in Lean (C01.number_payload_not_roundtrip, '
+                             'C01.negative_payload_not_roundtrip) no longer reproduce on the implementation')
     finally:
         drv.close()
     ctx.coverage.update({
@@ -274,6 +341,7 @@ def run(ctx):
                 'its short/long hand-back variants, grammar mutations and noise decoded by both. non-trivial = '
                 'distinct well-formed packet with a bytes leaf at depth >= 2 or >= 2 optional header fields',
         'samples': samples, 'traces_validated_against_impl': evals + ndec,
+        'spec_codec_comparisons': n_spec,
     })
     ctx.assumptions += ['lone surrogates are not generated (Lean Char cannot hold them)',
                         'non-finite floats are outside the domain']
